@@ -430,6 +430,46 @@ pub fn label_collision_module(f: usize, g: usize, k: usize) -> Module {
     m
 }
 
+/// functions that own nothing on the value stack (no parameters, no locals) and end in a conditional card: when the
+/// condition is false the call returns nil and nothing else runs - in particular not the function compiled after it
+pub fn bare_functions_module(rng: &mut Prng) -> Module {
+    let mut m = Module::default();
+    let n = rng.range(2, 6) as usize;
+    let mut main = vec![set("_", nil())];
+    let mut fns: Vec<(String, Function)> = Vec::new();
+    for i in 0..n {
+        let flag = format!("flag{i}");
+        main.push(setg(&flag, if rng.chance(1, 2) { int(1) } else { int(0) }));
+        let tag = 100 + i as i64;
+        let last: Card = match rng.below(4) {
+            0 => bin("iftrue", read(&flag), un("ret", int(tag))),
+            1 => bin("iffalse", read(&flag), un("ret", int(tag))),
+            2 => ifelse(read(&flag), un("ret", int(tag)), comp(vec![])),
+            _ => bin("iftrue", read(&flag), comp(vec![setg("sink", native("log1", vec![int(tag)])), un("ret", int(tag))])),
+        };
+        let mut cards = Vec::new();
+        if rng.chance(1, 2) {
+            cards.push(setg("sink", native("log1", vec![int(tag + 1000)])));
+        }
+        cards.push(last);
+        fns.push((format!("maybe{i}"), Function { arguments: vec![], cards }));
+        // a bystander right behind it whose body is observable
+        fns.push((format!("by{i}"), Function { arguments: vec![], cards: vec![setg("sink", native("log1", vec![int(tag + 2000)])), un("ret", int(tag + 3000))] }));
+    }
+    for i in 0..n {
+        let c = if rng.chance(1, 3) { dyncall(CardBody::Function(format!("maybe{i}")).into(), vec![]) } else { call(&format!("maybe{i}"), vec![]) };
+        main.push(discard(native("log2", vec![int(i as i64), c])));
+    }
+    if rng.chance(1, 2) {
+        m.functions.push(("main".into(), Function { arguments: vec![], cards: main }));
+        m.functions.extend(fns);
+    } else {
+        m.functions.extend(fns);
+        m.functions.push(("main".into(), Function { arguments: vec![], cards: main }));
+    }
+    m
+}
+
 impl Engine for ResolveEngine {
     type Case = Case;
     fn name(&self) -> &'static str {
@@ -449,6 +489,9 @@ impl Engine for ResolveEngine {
             // used at the pinned commit and under the one it uses after the repair (found by exhaustive search)
             let (f, g, k) = *rng.pick(&[(210usize, 1003usize, 1302usize), (968, 1437, 1051)]);
             return Case { module: label_collision_module(f, g, k), inputs: vec![], scenario: "label-handle-collision".into() };
+        }
+        if rng.chance(1, 20) {
+            return Case { module: bare_functions_module(rng), inputs: vec![], scenario: "functions-without-parameters-or-locals".into() };
         }
         Case { module: gen_tree(rng), inputs: vec![], scenario: "module-tree".into() }
     }
